@@ -259,6 +259,33 @@ Definition above_gap_ids (decls : list cdecl) (mro : nat -> list nat) (p : nat) 
 
 Definition zsubset (a b : list Z) : bool := forallb (fun x => zmem x b) a.
 
+(** D36: for a member a class defines, the meta-class combines what attribute lookup on the *direct bases* finds: per
+    base the first class on its resolution order that defines the member (whose lists hold what that class combined in
+    turn).  A definer further along a base's resolution order, behind an unrelated one, is not reached:
+    [class C(B, A): pass] with [B.f] and [A.f] unrelated, then [class D(C): def f] - what [A.f] declares is lost. *)
+Fixpoint reached (fuel : nat) (decls : list cdecl) (mro : nat -> list nat) (name : string) (acc : mkind) (c : nat) : list nat :=
+  match fuel with
+  | 0 => []
+  | S f =>
+      c :: match nth_error decls c with
+           | Some d => flat_map (fun b => match definers decls mro b name acc with
+                                          | (c', _) :: _ => reached f decls mro name acc c'
+                                          | [] => []
+                                          end) (cd_bases d)
+           | None => []
+           end
+  end.
+
+Definition hidden_definers (decls : list cdecl) (mro : nat -> list nat) (p : nat) (name : string) (acc : mkind) : list nat :=
+  let vis := reached (S p) decls mro name acc p in
+  flat_map (fun cm => if nat_in (fst cm) vis then [] else [fst cm]) (definers decls mro p name acc).
+
+Definition hidden_ids (decls : list cdecl) (mro : nat -> list nat) (p : nat) (name : string) (acc : mkind)
+  : list Z * list Z * list Z :=
+  let hid := hidden_definers decls mro p name acc in
+  let ms := flat_map (fun cm => if nat_in (fst cm) hid then [snd cm] else []) (definers decls mro p name acc) in
+  (flat_map own_pre ms, flat_map own_post ms, flat_map own_snaps ms).
+
 (** D34: a class with invariants that only inherits a method (or property) puts the wrapper it makes around the inherited
     function into *its own* namespace.  Below it, in a class with a further base that overrides the member - later in
     the resolution order - attribute lookup finds that copy first: the override and its contracts are hidden. *)
@@ -324,6 +351,15 @@ Definition check_member_view (decls : list cdecl) (mro : nat -> list nat) (k : n
         zsubset (filter (fun x => negb (zmem x (fv_snaps v))) snaps) gap_snaps &&
         zsubset (filter (fun x => negb (zmem x (List.concat (fv_pre v)))) (List.concat groups)) gap_pre &&
         negb (zset_eqb (fv_post v) posts && zset_eqb (fv_snaps v) snaps && gset_eqb (fv_pre v) groups) in
+      let '(hid_pre, hid_post, hid_snaps) := hidden_ids decls mro p name acc in
+      let hidden_class :=
+        negb ctor && negb (is_nil (hidden_definers decls mro p name acc)) &&
+        (* nothing is shown that was not declared, and whatever is missing was declared by a definer that is not reached *)
+        zsubset (fv_post v) posts && zsubset (fv_snaps v) snaps && zsubset (List.concat (fv_pre v)) (List.concat groups) &&
+        zsubset (filter (fun x => negb (zmem x (fv_post v))) posts) hid_post &&
+        zsubset (filter (fun x => negb (zmem x (fv_snaps v))) snaps) hid_snaps &&
+        zsubset (filter (fun x => negb (zmem x (List.concat (fv_pre v)))) (List.concat groups)) hid_pre &&
+        negb (zset_eqb (fv_post v) posts && zset_eqb (fv_snaps v) snaps && gset_eqb (fv_pre v) groups) in
       let ident_class :=
         negb ctor
         && existsb (fun c => match nth_error decls c with Some d => takes_by_identity d name acc | None => false end) (mro k)
@@ -333,6 +369,7 @@ Definition check_member_view (decls : list cdecl) (mro : nat -> list nat) (k : n
         && zsubset (List.concat (fv_pre v)) (List.concat (declared_groups decls mro k name acc)) in
       let verdict :=
         if gap_class then V_known 1 else
+        if hidden_class then V_known 3 else
         if negb (zset_eqb (fv_post v) posts && zset_eqb (fv_snaps v) snaps) then V_bad
         else if negb ctor && accept_all decls mro p name acc
              then (if is_nil (fv_pre v) then V_ok
@@ -393,7 +430,7 @@ Definition declared_invs (decls : list cdecl) (mro : nat -> list nat) (k : nat) 
                      end) (mro k).
 
 Definition verdict_code (v : c04_verdict) : Z :=
-  match v with V_ok => 0%Z | V_known 0 => 1%Z | V_known 1 => 3%Z | V_known _ => 4%Z | V_bad => 2%Z end.
+  match v with V_ok => 0%Z | V_known 0 => 1%Z | V_known 1 => 3%Z | V_known 2 => 4%Z | V_known _ => 5%Z | V_bad => 2%Z end.
 
 (** C04 / C18 on the final view of a history: 0 = as declared, 1 = only known-finding classes differ, 2 = violated *)
 Definition spec_C04_code_h (errs : list (option string)) (c : ecase) (w_model : world) (final : wview) : Z :=
@@ -495,7 +532,7 @@ Fixpoint dup_name_distinct_id (l : list (Z * string)) : bool :=
   | (i, n) :: r => existsb (fun p => String.eqb (snd p) n && negb (Z.eqb (fst p) i)) r || dup_name_distinct_id r
   end.
 
-Definition class_misuses (gap_aware : bool) (decls : list cdecl) (w_before : world) (d : cdecl) (mro_new : list nat) (meta : bool)
+Definition class_misuses (gap_aware : nat) (decls : list cdecl) (w_before : world) (d : cdecl) (mro_new : list nat) (meta : bool)
   : list string :=
   let k := List.length decls in                 (* index this class would get *)
   let decls' := decls ++ [d] in
@@ -508,7 +545,9 @@ Definition class_misuses (gap_aware : bool) (decls : list cdecl) (w_before : wor
                        if is_ctor (md_name m) then [] else
                        let acc := md_kind m in
                        (* [gap_aware]: what lies beyond a class that drops the accessor is not seen (finding D23) *)
-                       let hidden := if gap_aware then after_gap decls' mro (md_name m) acc (tl (mro k)) else [] in
+                       (* from 2 on: nor what a definer declares that is not reached through the direct bases (finding D36) *)
+                       let hidden := (if Nat.leb 1 gap_aware then after_gap decls' mro (md_name m) acc (tl (mro k)) else [])
+                                     ++ (if Nat.leb 2 gap_aware then hidden_definers decls' mro k (md_name m) acc else []) in
                        let above := filter (fun cm => negb (Nat.eqb (fst cm) k) && negb (nat_in (fst cm) hidden))
                                            (definers decls' mro k (md_name m) acc) in
                        let provided := negb (is_nil above)
@@ -538,7 +577,7 @@ Definition error_ok (misuses : list string) (err : option string) : bool :=
   end.
 
 (** walks the history with the model's world (for resolution orders of the classes defined so far) *)
-Fixpoint spec_errors (gap_aware : bool) (w : world) (decls : list cdecl) (ops : list defop) (h : list (option string * wview)) : bool :=
+Fixpoint spec_errors (gap_aware : nat) (w : world) (decls : list cdecl) (ops : list defop) (h : list (option string * wview)) : bool :=
   match ops, h with
   | [], [] => true
   | op :: rest, (err, _) :: hrest =>
@@ -572,13 +611,14 @@ Fixpoint spec_errors (gap_aware : bool) (w : world) (decls : list cdecl) (ops : 
   end.
 
 Definition spec_C19_defs (c : ecase) (h : list (option string * wview)) : bool :=
-  spec_errors false empty_world [] (e_ops c) h.
+  spec_errors 0 empty_world [] (e_ops c) h.
 
 (** 0 = as specified; 3 = only the recorded finding D23 (a precondition added below a class that drops the accessor is
     not rejected although an ancestor beyond it declares none); 2 = violated *)
 Definition spec_C19_defs_code (c : ecase) (h : list (option string * wview)) : Z :=
-  if spec_errors false empty_world [] (e_ops c) h then 0%Z
-  else if spec_errors true empty_world [] (e_ops c) h then 3%Z else 2%Z.
+  if spec_errors 0 empty_world [] (e_ops c) h then 0%Z
+  else if spec_errors 1 empty_world [] (e_ops c) h then 3%Z
+  else if spec_errors 2 empty_world [] (e_ops c) h then 5%Z else 2%Z.
 
 (** ** C18: every class created through the metaclass is announced exactly once, in creation order *)
 Definition spec_C18_registered (c : ecase) (wm : world) (h : list (option string * wview)) : bool :=
